@@ -55,8 +55,10 @@ def render_property(p, rng=None, style='min'):
 
 
 class PropGen:
-    def __init__(self, rng, max_depth=3, max_width=3, **genkw):
+    def __init__(self, rng, max_depth=3, max_width=3, topic_schemas=None, **genkw):
         self.rng = rng
+        self.topic_schemas = topic_schemas      # channel -> generator schema (None: the default schema everywhere)
+        self.alias_topic = {}
         self.max_depth = max_depth
         self.max_width = max_width
         self.genkw = genkw
@@ -66,7 +68,11 @@ class PropGen:
         pred = None
         if rng.random() < pred_prob:
             als = list(avail) + ([alias] if alias and rng.random() < 0.3 else [])
-            g = Gen(rng, aliases=als, max_depth=rng.randrange(1, self.max_depth + 1), **self.genkw)
+            kw = dict(self.genkw)
+            if self.topic_schemas is not None:
+                kw['schema'] = self.topic_schemas[topic]
+                kw['alias_schemas'] = {a: self.topic_schemas[self.alias_topic[a]] for a in als if a in self.alias_topic}
+            g = Gen(rng, aliases=als, max_depth=rng.randrange(1, self.max_depth + 1), **kw)
             pred = g.expr(BOOL)
         return ('ev', topic, alias, pred)
 
@@ -82,6 +88,7 @@ class PropGen:
             if alias_pool and rng.random() < 0.5:
                 alias = alias_pool.pop(0)
                 bound.append(alias)
+                self.alias_topic[alias] = n
             evs.append(self.simple(n, alias, avail))
         if width == 1:
             return evs[0], bound
@@ -94,6 +101,8 @@ class PropGen:
         widths = widths or {}
         pool = ['A', 'B', 'C', 'D', 'M1', 'M2']
         rng.shuffle(pool)
+        self.alias_topic = {}
+        TOPICS = list(self.topic_schemas) if self.topic_schemas is not None else globals()['TOPICS']
         act = term = trig = None
         initial = []
         if scope in ('after', 'after_until'):
